@@ -593,13 +593,17 @@ func (e *kvElection) Stop() error {
 	case <-time.After(5 * time.Second):
 	}
 
-	if wasLeader && e.onDemote != nil {
+	e.mu.RLock()
+	onDemote := e.onDemote
+	e.mu.RUnlock()
+
+	if wasLeader && onDemote != nil {
 		log.Info("leader_demoted",
 			append(e.logWithContext(e.ctx),
 				zap.String("reason", "stop"),
 			)...,
 		)
-		e.onDemote()
+		onDemote()
 	}
 
 	return nil
@@ -716,7 +720,11 @@ func (e *kvElection) StopWithContext(ctx context.Context, opts StopOptions) erro
 		}
 	}
 
-	if wasLeader && e.onDemote != nil {
+	e.mu.RLock()
+	onDemote := e.onDemote
+	e.mu.RUnlock()
+
+	if wasLeader && onDemote != nil {
 		log := e.getLogger()
 		log.Info("leader_demoted",
 			append(e.logWithContext(ctx),
@@ -724,10 +732,6 @@ func (e *kvElection) StopWithContext(ctx context.Context, opts StopOptions) erro
 				zap.Bool("wait_for_demote", opts.WaitForDemote),
 			)...,
 		)
-
-		e.mu.RLock()
-		onDemote := e.onDemote
-		e.mu.RUnlock()
 
 		if onDemote != nil {
 			if opts.WaitForDemote {
